@@ -97,26 +97,42 @@ def one(ctx, y, yh, x, family):
         if abs(yl[0] - y[0]) > tol or abs(yl[-1] - y[-1]) > tol:
             ctx.fail('predicate', 'endpoint-fit-passes-through-first-and-last', 'linear_fit.linear_fit', case, dict(line_ends=[float(yl[0]), float(yl[-1])]))
         pts = np.column_stack([x, y])
-        pairs = [('smape', lf.smape_points(pts, coef), M.smape(y, yl)), ('rpd', lf.rpd_points(pts, coef), M.rpd(y, yl)),
-                 ('rmspe', lf.rmspe_points(pts, coef), M.rmspe(y, yl)), ('rmsle', lf.rmsle_points(pts, coef), M.rmsle(y, yl)),
-                 ('rmse', lf.rmse_points(pts, coef), M.rmse(y, yl)), ('residuals', lf.linear_residuals_points(pts, coef), M.residuals(y, yl)),
-                 ('r2', lf.linear_r2_points(pts, coef), M.r2(y, yl)), ('fit_residuals', lf.linear_fit_residuals_points(pts), M.residuals(y, yl))]
-        if n >= 3:
-            pairs.append(('r2adj', lf.linear_r2_points(pts, coef, M.R2.adjusted), M.r2(y, yl, M.R2.adjusted)))
-        for nm, a, bb in pairs:
-            a, bb = float(a), float(bb)
-            # linear_r2 is a separate implementation of 1 - rss/tss (cancellation near 0): rounding scale is 1, not |value|
-            if a != bb and not (math.isnan(a) and math.isnan(bb)) and abs(a - bb) > 1e-9 * (abs(a) + abs(bb) + (1.0 if nm.startswith('r2') else 0.0)) + 1e-300:
-                ctx.fail('predicate', f'wrapper-{nm}==metric(y, m*x+b)', f'linear_fit.{nm}', case, dict(wrapper=a, metric=bb))
+        # the wrappers with the curve's own end-point line AND with a line that does not fit it (end-point line of y_hat):
+        # on a plateau the first has rss == 0, the second exercises the tss == 0 branch with rss != 0
+        bo, mo = lf.linear_fit(x, yh) if n >= 2 else (b, m)
+        for tagc, cf in (('', coef), ('other-line:', (bo, mo))):
+            ylc = lf.linear_transform(x, cf)
+            if tagc and (np.any(ylc < 0) or not np.all(np.isfinite(ylc))):
+                continue
+            pairs = [('smape', lf.smape_points(pts, cf), M.smape(y, ylc)), ('rpd', lf.rpd_points(pts, cf), M.rpd(y, ylc)),
+                     ('rmspe', lf.rmspe_points(pts, cf), M.rmspe(y, ylc)), ('rmsle', lf.rmsle_points(pts, cf), M.rmsle(y, ylc)),
+                     ('rmse', lf.rmse_points(pts, cf), M.rmse(y, ylc)), ('residuals', lf.linear_residuals_points(pts, cf), M.residuals(y, ylc)),
+                     ('r2', lf.linear_r2_points(pts, cf), M.r2(y, ylc)),
+                     ('r2[x,y]', lf.linear_r2(x, y, cf), M.r2(y, ylc)), ('rmse[x,y]', lf.rmse(x, y, cf), M.rmse(y, ylc)),
+                     ('smape[x,y]', lf.smape(x, y, cf), M.smape(y, ylc)), ('rpd[x,y]', lf.rpd(x, y, cf), M.rpd(y, ylc)),
+                     ('rmspe[x,y]', lf.rmspe(x, y, cf), M.rmspe(y, ylc)), ('rmsle[x,y]', lf.rmsle(x, y, cf), M.rmsle(y, ylc))]
+            if not tagc:
+                pairs.append(('fit_residuals', lf.linear_fit_residuals_points(pts), M.residuals(y, ylc)))
+            if n >= 3:
+                pairs.append(('r2adj', lf.linear_r2_points(pts, cf, M.R2.adjusted), M.r2(y, ylc, M.R2.adjusted)))
+                pairs.append(('r2adj[x,y]', lf.linear_r2(x, y, cf, M.R2.adjusted), M.r2(y, ylc, M.R2.adjusted)))
+            for nm, a, bb in pairs:
+                a, bb = float(a), float(bb)
+                # linear_r2 is a separate implementation of 1 - rss/tss (cancellation near 0): rounding scale is 1 (times the size of the value), not |value|
+                if a != bb and not (math.isnan(a) and math.isnan(bb)) and abs(a - bb) > 1e-9 * (abs(a) + abs(bb) + (1.0 if nm.startswith('r2') else 0.0)) + 1e-300:
+                    ctx.fail('predicate', f'wrapper-{tagc}{nm}==metric(y, m*x+b)', f'linear_fit.{nm}', case, dict(wrapper=a, metric=bb, coef=[float(cf[0]), float(cf[1])]))
         if n >= 3 and np.ptp(y) > 0:
             q = F(d.call('metric', ['corrSq', core.rats(x), ys])[0])
             ctx.corr_checked += 1
+            # np.corrcoef centres the data in floating point: its rounding error grows with max|x|/ptp(x) (large offsets, tiny spread)
+            cond = float(np.max(np.abs(x)) / np.ptp(x) + np.max(np.abs(y)) / np.ptp(y))
+            cs = 1 + 1e9 * 64 * np.finfo(float).eps * cond
             v = float(lf.r2(x, y))
-            if not close(v, q, 1):
+            if not close(v, q, cs):
                 ctx.fail('predicate', 'best-fit-R2-equals-squared-Pearson-correlation', 'linear_fit.r2', case, dict(impl=v, model=float(q)))
             qa = F(d.call('metric', ['corrSqAdj', core.rats(x), ys])[0])
             va = float(lf.r2(x, y, M.R2.adjusted))
-            if not close(va, qa, abs(qa) + 2):
+            if not close(va, qa, abs(qa) + 2 * cs):
                 ctx.fail('predicate', 'adjusted-best-fit-R2-applies-the-(n-1)/(n-2)-correction', 'linear_fit.r2[adjusted]', case, dict(impl=va, model=float(qa)))
     nontriv = (y.tobytes(), yh.tobytes()) if n >= 2 and not np.array_equal(y, yh) else None
     ctx.count(family, n=n, nontrivial_key=nontriv, sample=dict(y=y.tolist()[:8], y_hat=yh.tolist()[:8], smape=float(M.smape(y, yh))))
@@ -129,7 +145,15 @@ def run(ctx):
         ky, kh = rng.choice(['rand', 'zeros', 'const', 'rand']), rng.choice(['rand', 'zeros', 'rand'])
         y, yh = vec(rng, n, ky), vec(rng, n, kh)
         x = np.cumsum([rng.choice([1, 2, 3, 4]) * 0.5 for _ in range(n)])
-        one(ctx, y, yh, x, f'{ky}/{kh}')
+        u = rng.random()
+        fam = f'{ky}/{kh}'
+        if u < 0.08:
+            x, fam = x + 2.0 ** 40, fam + '@xoff'        # large abscissae with tiny relative spacing
+        elif u < 0.13:
+            x, fam = x * 2.0 ** -40, fam + '@xtiny'
+        elif u < 0.18:
+            x, fam = x * 2.0 ** 30, fam + '@xhuge'
+        one(ctx, y, yh, x, fam)
 
 
 def replay(ctx, body):
